@@ -6,7 +6,7 @@ From FT.lib Require Import Num Arr ArrLemmas Lower NumArr.
 From FT.gen Require Import Common Fteik2d Fteik3d.
 From FT.gen Require Import Interp2d Interp3d FteikCommon Ray2d Ray3d.
 From FT.proofs Require Import Solve2dProofs Solve3dProofs VectorizedProofs Ray2dProofs.
-From FT.proofs Require Ray3dProofs RayBudget.
+From FT.proofs Require Ray3dProofs RayBudget ApiGenEq.
 Import ListNotations.
 Open Scope Z_scope.
 
@@ -219,6 +219,805 @@ Theorem C13_ray_outside_hull_independent_of_budget_3d :
        Ok (full [M'; 3] (nofZ 0), -1).
 Proof. exact @RayBudget.ray3d_outside_budget_free. Qed.
 
+(* API layer (extracted): `.gradient` (and hence raytrace) on a grid solved without return_gradient raises ValueError *)
+Theorem C13_gradient_access_without_gradient_raises_ValueError :
+  ApiGen.gradient_2d_guard =
+       (String.String (Ascii.Ascii true true false false true true true false)
+          (String.String (Ascii.Ascii true false true false false true true false)
+             (String.String (Ascii.Ascii false false true true false true true false)
+                (String.String (Ascii.Ascii false true true false false true true false)
+                   (String.String (Ascii.Ascii false true true true false true false false)
+                      (String.String (Ascii.Ascii true true true true true false true false)
+                         (String.String (Ascii.Ascii true true true false false true true false)
+                            (String.String (Ascii.Ascii false true false false true true true false)
+                               (String.String (Ascii.Ascii true false false false false true true false)
+                                  (String.String (Ascii.Ascii false false true false false true true false)
+                                     (String.String (Ascii.Ascii true false false true false true true false)
+                                        (String.String (Ascii.Ascii true false true false false true true false)
+                                           (String.String (Ascii.Ascii false true true true false true true false)
+                                              (String.String (Ascii.Ascii false false true false true true true false)
+                                                 (String.String
+                                                    (Ascii.Ascii false false false false false true false false)
+                                                    (String.String
+                                                       (Ascii.Ascii true false false true false true true false)
+                                                       (String.String
+                                                          (Ascii.Ascii true true false false true true true false)
+                                                          (String.String
+                                                             (Ascii.Ascii false false false false false true false
+                                                                false)
+                                                             (String.String
+                                                                (Ascii.Ascii false true true true false false true
+                                                                   false)
+                                                                (String.String
+                                                                   (Ascii.Ascii true true true true false true true
+                                                                      false)
+                                                                   (String.String
+                                                                      (Ascii.Ascii false true true true false true true
+                                                                         false)
+                                                                      (String.String
+                                                                         (Ascii.Ascii true false true false false true
+                                                                            true false) String.EmptyString))))))))))))))))))))),
+        String.String (Ascii.Ascii false true true false true false true false)
+          (String.String (Ascii.Ascii true false false false false true true false)
+             (String.String (Ascii.Ascii false false true true false true true false)
+                (String.String (Ascii.Ascii true false true false true true true false)
+                   (String.String (Ascii.Ascii true false true false false true true false)
+                      (String.String (Ascii.Ascii true false true false false false true false)
+                         (String.String (Ascii.Ascii false true false false true true true false)
+                            (String.String (Ascii.Ascii false true false false true true true false)
+                               (String.String (Ascii.Ascii true true true true false true true false)
+                                  (String.String (Ascii.Ascii false true false false true true true false)
+                                     String.EmptyString)))))))))) /\
+       ApiGen.gradient_2d_ctor =
+       String.String (Ascii.Ascii true true true false false false true false)
+         (String.String (Ascii.Ascii false true false false true true true false)
+            (String.String (Ascii.Ascii true false false true false true true false)
+               (String.String (Ascii.Ascii false false true false false true true false)
+                  (String.String (Ascii.Ascii false true false false true true false false)
+                     (String.String (Ascii.Ascii false false true false false false true false) String.EmptyString))))) /\
+       ApiGen.gradient_2d_index = ApiGen.arange 2 /\
+       ApiGen.gradient_2d_axis = (2, 3) /\
+       ApiGen.gradient_2d_items =
+       [[(String.String (Ascii.Ascii true true true false false true true false)
+            (String.String (Ascii.Ascii false true false false true true true false)
+               (String.String (Ascii.Ascii true false false true false true true false)
+                  (String.String (Ascii.Ascii false false true false false true true false) String.EmptyString))),
+          String.String (Ascii.Ascii true true false false true true true false)
+            (String.String (Ascii.Ascii true false true false false true true false)
+               (String.String (Ascii.Ascii false false true true false true true false)
+                  (String.String (Ascii.Ascii false true true false false true true false)
+                     (String.String (Ascii.Ascii false true true true false true false false)
+                        (String.String (Ascii.Ascii true true true true true false true false)
+                           (String.String (Ascii.Ascii true true true false false true true false)
+                              (String.String (Ascii.Ascii false true false false true true true false)
+                                 (String.String (Ascii.Ascii true false false false false true true false)
+                                    (String.String (Ascii.Ascii false false true false false true true false)
+                                       (String.String (Ascii.Ascii true false false true false true true false)
+                                          (String.String (Ascii.Ascii true false true false false true true false)
+                                             (String.String (Ascii.Ascii false true true true false true true false)
+                                                (String.String
+                                                   (Ascii.Ascii false false true false true true true false)
+                                                   (String.String
+                                                      (Ascii.Ascii true true false true true false true false)
+                                                      (String.String
+                                                         (Ascii.Ascii false true false true true true false false)
+                                                         (String.String
+                                                            (Ascii.Ascii false false true true false true false false)
+                                                            (String.String
+                                                               (Ascii.Ascii false false false false false true false
+                                                                  false)
+                                                               (String.String
+                                                                  (Ascii.Ascii false true false true true true false
+                                                                     false)
+                                                                  (String.String
+                                                                     (Ascii.Ascii false false true true false true
+                                                                        false false)
+                                                                     (String.String
+                                                                        (Ascii.Ascii false false false false false true
+                                                                           false false)
+                                                                        (String.String
+                                                                           (Ascii.Ascii false false false false true
+                                                                              true false false)
+                                                                           (String.String
+                                                                              (Ascii.Ascii true false true true true
+                                                                                 false true false) String.EmptyString)))))))))))))))))))))));
+         (String.String (Ascii.Ascii true true true false false true true false)
+            (String.String (Ascii.Ascii false true false false true true true false)
+               (String.String (Ascii.Ascii true false false true false true true false)
+                  (String.String (Ascii.Ascii false false true false false true true false)
+                     (String.String (Ascii.Ascii true true false false true true true false)
+                        (String.String (Ascii.Ascii true false false true false true true false)
+                           (String.String (Ascii.Ascii false true false true true true true false)
+                              (String.String (Ascii.Ascii true false true false false true true false)
+                                 String.EmptyString))))))),
+          String.String (Ascii.Ascii true true false false true true true false)
+            (String.String (Ascii.Ascii true false true false false true true false)
+               (String.String (Ascii.Ascii false false true true false true true false)
+                  (String.String (Ascii.Ascii false true true false false true true false)
+                     (String.String (Ascii.Ascii false true true true false true false false)
+                        (String.String (Ascii.Ascii true true true true true false true false)
+                           (String.String (Ascii.Ascii true true true false false true true false)
+                              (String.String (Ascii.Ascii false true false false true true true false)
+                                 (String.String (Ascii.Ascii true false false true false true true false)
+                                    (String.String (Ascii.Ascii false false true false false true true false)
+                                       (String.String (Ascii.Ascii true true false false true true true false)
+                                          (String.String (Ascii.Ascii true false false true false true true false)
+                                             (String.String (Ascii.Ascii false true false true true true true false)
+                                                (String.String
+                                                   (Ascii.Ascii true false true false false true true false)
+                                                   String.EmptyString))))))))))))));
+         (String.String (Ascii.Ascii true true true true false true true false)
+            (String.String (Ascii.Ascii false true false false true true true false)
+               (String.String (Ascii.Ascii true false false true false true true false)
+                  (String.String (Ascii.Ascii true true true false false true true false)
+                     (String.String (Ascii.Ascii true false false true false true true false)
+                        (String.String (Ascii.Ascii false true true true false true true false) String.EmptyString))))),
+          String.String (Ascii.Ascii true true false false true true true false)
+            (String.String (Ascii.Ascii true false true false false true true false)
+               (String.String (Ascii.Ascii false false true true false true true false)
+                  (String.String (Ascii.Ascii false true true false false true true false)
+                     (String.String (Ascii.Ascii false true true true false true false false)
+                        (String.String (Ascii.Ascii true true true true true false true false)
+                           (String.String (Ascii.Ascii true true true true false true true false)
+                              (String.String (Ascii.Ascii false true false false true true true false)
+                                 (String.String (Ascii.Ascii true false false true false true true false)
+                                    (String.String (Ascii.Ascii true true true false false true true false)
+                                       (String.String (Ascii.Ascii true false false true false true true false)
+                                          (String.String (Ascii.Ascii false true true true false true true false)
+                                             String.EmptyString))))))))))))];
+        [(String.String (Ascii.Ascii true true true false false true true false)
+            (String.String (Ascii.Ascii false true false false true true true false)
+               (String.String (Ascii.Ascii true false false true false true true false)
+                  (String.String (Ascii.Ascii false false true false false true true false) String.EmptyString))),
+          String.String (Ascii.Ascii true true false false true true true false)
+            (String.String (Ascii.Ascii true false true false false true true false)
+               (String.String (Ascii.Ascii false false true true false true true false)
+                  (String.String (Ascii.Ascii false true true false false true true false)
+                     (String.String (Ascii.Ascii false true true true false true false false)
+                        (String.String (Ascii.Ascii true true true true true false true false)
+                           (String.String (Ascii.Ascii true true true false false true true false)
+                              (String.String (Ascii.Ascii false true false false true true true false)
+                                 (String.String (Ascii.Ascii true false false false false true true false)
+                                    (String.String (Ascii.Ascii false false true false false true true false)
+                                       (String.String (Ascii.Ascii true false false true false true true false)
+                                          (String.String (Ascii.Ascii true false true false false true true false)
+                                             (String.String (Ascii.Ascii false true true true false true true false)
+                                                (String.String
+                                                   (Ascii.Ascii false false true false true true true false)
+                                                   (String.String
+                                                      (Ascii.Ascii true true false true true false true false)
+                                                      (String.String
+                                                         (Ascii.Ascii false true false true true true false false)
+                                                         (String.String
+                                                            (Ascii.Ascii false false true true false true false false)
+                                                            (String.String
+                                                               (Ascii.Ascii false false false false false true false
+                                                                  false)
+                                                               (String.String
+                                                                  (Ascii.Ascii false true false true true true false
+                                                                     false)
+                                                                  (String.String
+                                                                     (Ascii.Ascii false false true true false true
+                                                                        false false)
+                                                                     (String.String
+                                                                        (Ascii.Ascii false false false false false true
+                                                                           false false)
+                                                                        (String.String
+                                                                           (Ascii.Ascii true false false false true
+                                                                              true false false)
+                                                                           (String.String
+                                                                              (Ascii.Ascii true false true true true
+                                                                                 false true false) String.EmptyString)))))))))))))))))))))));
+         (String.String (Ascii.Ascii true true true false false true true false)
+            (String.String (Ascii.Ascii false true false false true true true false)
+               (String.String (Ascii.Ascii true false false true false true true false)
+                  (String.String (Ascii.Ascii false false true false false true true false)
+                     (String.String (Ascii.Ascii true true false false true true true false)
+                        (String.String (Ascii.Ascii true false false true false true true false)
+                           (String.String (Ascii.Ascii false true false true true true true false)
+                              (String.String (Ascii.Ascii true false true false false true true false)
+                                 String.EmptyString))))))),
+          String.String (Ascii.Ascii true true false false true true true false)
+            (String.String (Ascii.Ascii true false true false false true true false)
+               (String.String (Ascii.Ascii false false true true false true true false)
+                  (String.String (Ascii.Ascii false true true false false true true false)
+                     (String.String (Ascii.Ascii false true true true false true false false)
+                        (String.String (Ascii.Ascii true true true true true false true false)
+                           (String.String (Ascii.Ascii true true true false false true true false)
+                              (String.String (Ascii.Ascii false true false false true true true false)
+                                 (String.String (Ascii.Ascii true false false true false true true false)
+                                    (String.String (Ascii.Ascii false false true false false true true false)
+                                       (String.String (Ascii.Ascii true true false false true true true false)
+                                          (String.String (Ascii.Ascii true false false true false true true false)
+                                             (String.String (Ascii.Ascii false true false true true true true false)
+                                                (String.String
+                                                   (Ascii.Ascii true false true false false true true false)
+                                                   String.EmptyString))))))))))))));
+         (String.String (Ascii.Ascii true true true true false true true false)
+            (String.String (Ascii.Ascii false true false false true true true false)
+               (String.String (Ascii.Ascii true false false true false true true false)
+                  (String.String (Ascii.Ascii true true true false false true true false)
+                     (String.String (Ascii.Ascii true false false true false true true false)
+                        (String.String (Ascii.Ascii false true true true false true true false) String.EmptyString))))),
+          String.String (Ascii.Ascii true true false false true true true false)
+            (String.String (Ascii.Ascii true false true false false true true false)
+               (String.String (Ascii.Ascii false false true true false true true false)
+                  (String.String (Ascii.Ascii false true true false false true true false)
+                     (String.String (Ascii.Ascii false true true true false true false false)
+                        (String.String (Ascii.Ascii true true true true true false true false)
+                           (String.String (Ascii.Ascii true true true true false true true false)
+                              (String.String (Ascii.Ascii false true false false true true true false)
+                                 (String.String (Ascii.Ascii true false false true false true true false)
+                                    (String.String (Ascii.Ascii true true true false false true true false)
+                                       (String.String (Ascii.Ascii true false false true false true true false)
+                                          (String.String (Ascii.Ascii false true true true false true true false)
+                                             String.EmptyString))))))))))))]] /\
+       ApiGen.grid_2d_init =
+       (String.String (Ascii.Ascii false false false true false true false false)
+          (String.String (Ascii.Ascii true true false false true true true false)
+             (String.String (Ascii.Ascii true false true false false true true false)
+                (String.String (Ascii.Ascii false false true true false true true false)
+                   (String.String (Ascii.Ascii false true true false false true true false)
+                      (String.String (Ascii.Ascii false false true true false true false false)
+                         (String.String (Ascii.Ascii false false false false false true false false)
+                            (String.String (Ascii.Ascii false true false true false true false false)
+                               (String.String (Ascii.Ascii true false false false false true true false)
+                                  (String.String (Ascii.Ascii false true false false true true true false)
+                                     (String.String (Ascii.Ascii true true true false false true true false)
+                                        (String.String (Ascii.Ascii true true false false true true true false)
+                                           (String.String (Ascii.Ascii false false true true false true false false)
+                                              (String.String
+                                                 (Ascii.Ascii false false false false false true false false)
+                                                 (String.String
+                                                    (Ascii.Ascii false true false true false true false false)
+                                                    (String.String
+                                                       (Ascii.Ascii false true false true false true false false)
+                                                       (String.String
+                                                          (Ascii.Ascii true true false true false true true false)
+                                                          (String.String
+                                                             (Ascii.Ascii true true true false true true true false)
+                                                             (String.String
+                                                                (Ascii.Ascii true false false false false true true
+                                                                   false)
+                                                                (String.String
+                                                                   (Ascii.Ascii false true false false true true true
+                                                                      false)
+                                                                   (String.String
+                                                                      (Ascii.Ascii true true true false false true true
+                                                                         false)
+                                                                      (String.String
+                                                                         (Ascii.Ascii true true false false true true
+                                                                            true false)
+                                                                         (String.String
+                                                                            (Ascii.Ascii true false false true false
+                                                                               true false false) String.EmptyString)))))))))))))))))))))),
+        String.String (Ascii.Ascii true true false false true true true false)
+          (String.String (Ascii.Ascii true false true false true true true false)
+             (String.String (Ascii.Ascii false false false false true true true false)
+                (String.String (Ascii.Ascii true false true false false true true false)
+                   (String.String (Ascii.Ascii false true false false true true true false)
+                      (String.String (Ascii.Ascii false false false true false true false false)
+                         (String.String (Ascii.Ascii true false false true false true false false)
+                            (String.String (Ascii.Ascii false true true true false true false false)
+                               (String.String (Ascii.Ascii true true true true true false true false)
+                                  (String.String (Ascii.Ascii true true true true true false true false)
+                                     (String.String (Ascii.Ascii true false false true false true true false)
+                                        (String.String (Ascii.Ascii false true true true false true true false)
+                                           (String.String (Ascii.Ascii true false false true false true true false)
+                                              (String.String (Ascii.Ascii false false true false true true true false)
+                                                 (String.String (Ascii.Ascii true true true true true false true false)
+                                                    (String.String
+                                                       (Ascii.Ascii true true true true true false true false)
+                                                       (String.String
+                                                          (Ascii.Ascii false false false true false true false false)
+                                                          (String.String
+                                                             (Ascii.Ascii false true false true false true false false)
+                                                             (String.String
+                                                                (Ascii.Ascii true false false false false true true
+                                                                   false)
+                                                                (String.String
+                                                                   (Ascii.Ascii false true false false true true true
+                                                                      false)
+                                                                   (String.String
+                                                                      (Ascii.Ascii true true true false false true true
+                                                                         false)
+                                                                      (String.String
+                                                                         (Ascii.Ascii true true false false true true
+                                                                            true false)
+                                                                         (String.String
+                                                                            (Ascii.Ascii false false true true false
+                                                                               true false false)
+                                                                            (String.String
+                                                                               (Ascii.Ascii false false false false
+                                                                                  false true false false)
+                                                                               (String.String
+                                                                                  (Ascii.Ascii false true false true
+                                                                                     false true false false)
+                                                                                  (String.String
+                                                                                     (Ascii.Ascii false true false true
+                                                                                        false true false false)
+                                                                                     (String.String
+                                                                                        (Ascii.Ascii true true false
+                                                                                          true false true true false)
+                                                                                        (String.String
+                                                                                          (Ascii.Ascii true true true
+                                                                                          false true true true false)
+                                                                                          (String.String
+                                                                                          (Ascii.Ascii true false false
+                                                                                          false false true true false)
+                                                                                          (String.String
+                                                                                          (Ascii.Ascii false true false
+                                                                                          false true true true false)
+                                                                                          (String.String
+                                                                                          (Ascii.Ascii true true true
+                                                                                          false false true true false)
+                                                                                          (String.String
+                                                                                          (Ascii.Ascii true true false
+                                                                                          false true true true false)
+                                                                                          (String.String
+                                                                                          (Ascii.Ascii true false false
+                                                                                          true false true false false)
+                                                                                          String.EmptyString))))))))))))))))))))))))))))))))).
+Proof. exact @ApiGenEq.gen_gradient_2d. Qed.
+
+(* 3D *)
+Theorem C13_gradient_access_without_gradient_raises_ValueError_3d :
+  ApiGen.gradient_3d_guard =
+       (String.String (Ascii.Ascii true true false false true true true false)
+          (String.String (Ascii.Ascii true false true false false true true false)
+             (String.String (Ascii.Ascii false false true true false true true false)
+                (String.String (Ascii.Ascii false true true false false true true false)
+                   (String.String (Ascii.Ascii false true true true false true false false)
+                      (String.String (Ascii.Ascii true true true true true false true false)
+                         (String.String (Ascii.Ascii true true true false false true true false)
+                            (String.String (Ascii.Ascii false true false false true true true false)
+                               (String.String (Ascii.Ascii true false false false false true true false)
+                                  (String.String (Ascii.Ascii false false true false false true true false)
+                                     (String.String (Ascii.Ascii true false false true false true true false)
+                                        (String.String (Ascii.Ascii true false true false false true true false)
+                                           (String.String (Ascii.Ascii false true true true false true true false)
+                                              (String.String (Ascii.Ascii false false true false true true true false)
+                                                 (String.String
+                                                    (Ascii.Ascii false false false false false true false false)
+                                                    (String.String
+                                                       (Ascii.Ascii true false false true false true true false)
+                                                       (String.String
+                                                          (Ascii.Ascii true true false false true true true false)
+                                                          (String.String
+                                                             (Ascii.Ascii false false false false false true false
+                                                                false)
+                                                             (String.String
+                                                                (Ascii.Ascii false true true true false false true
+                                                                   false)
+                                                                (String.String
+                                                                   (Ascii.Ascii true true true true false true true
+                                                                      false)
+                                                                   (String.String
+                                                                      (Ascii.Ascii false true true true false true true
+                                                                         false)
+                                                                      (String.String
+                                                                         (Ascii.Ascii true false true false false true
+                                                                            true false) String.EmptyString))))))))))))))))))))),
+        String.String (Ascii.Ascii false true true false true false true false)
+          (String.String (Ascii.Ascii true false false false false true true false)
+             (String.String (Ascii.Ascii false false true true false true true false)
+                (String.String (Ascii.Ascii true false true false true true true false)
+                   (String.String (Ascii.Ascii true false true false false true true false)
+                      (String.String (Ascii.Ascii true false true false false false true false)
+                         (String.String (Ascii.Ascii false true false false true true true false)
+                            (String.String (Ascii.Ascii false true false false true true true false)
+                               (String.String (Ascii.Ascii true true true true false true true false)
+                                  (String.String (Ascii.Ascii false true false false true true true false)
+                                     String.EmptyString)))))))))) /\
+       ApiGen.gradient_3d_ctor =
+       String.String (Ascii.Ascii true true true false false false true false)
+         (String.String (Ascii.Ascii false true false false true true true false)
+            (String.String (Ascii.Ascii true false false true false true true false)
+               (String.String (Ascii.Ascii false false true false false true true false)
+                  (String.String (Ascii.Ascii true true false false true true false false)
+                     (String.String (Ascii.Ascii false false true false false false true false) String.EmptyString))))) /\
+       ApiGen.gradient_3d_index = ApiGen.arange 3 /\
+       ApiGen.gradient_3d_axis = (3, 4) /\
+       ApiGen.gradient_3d_items =
+       [[(String.String (Ascii.Ascii true true true false false true true false)
+            (String.String (Ascii.Ascii false true false false true true true false)
+               (String.String (Ascii.Ascii true false false true false true true false)
+                  (String.String (Ascii.Ascii false false true false false true true false) String.EmptyString))),
+          String.String (Ascii.Ascii true true false false true true true false)
+            (String.String (Ascii.Ascii true false true false false true true false)
+               (String.String (Ascii.Ascii false false true true false true true false)
+                  (String.String (Ascii.Ascii false true true false false true true false)
+                     (String.String (Ascii.Ascii false true true true false true false false)
+                        (String.String (Ascii.Ascii true true true true true false true false)
+                           (String.String (Ascii.Ascii true true true false false true true false)
+                              (String.String (Ascii.Ascii false true false false true true true false)
+                                 (String.String (Ascii.Ascii true false false false false true true false)
+                                    (String.String (Ascii.Ascii false false true false false true true false)
+                                       (String.String (Ascii.Ascii true false false true false true true false)
+                                          (String.String (Ascii.Ascii true false true false false true true false)
+                                             (String.String (Ascii.Ascii false true true true false true true false)
+                                                (String.String
+                                                   (Ascii.Ascii false false true false true true true false)
+                                                   (String.String
+                                                      (Ascii.Ascii true true false true true false true false)
+                                                      (String.String
+                                                         (Ascii.Ascii false true false true true true false false)
+                                                         (String.String
+                                                            (Ascii.Ascii false false true true false true false false)
+                                                            (String.String
+                                                               (Ascii.Ascii false false false false false true false
+                                                                  false)
+                                                               (String.String
+                                                                  (Ascii.Ascii false true false true true true false
+                                                                     false)
+                                                                  (String.String
+                                                                     (Ascii.Ascii false false true true false true
+                                                                        false false)
+                                                                     (String.String
+                                                                        (Ascii.Ascii false false false false false true
+                                                                           false false)
+                                                                        (String.String
+                                                                           (Ascii.Ascii false true false true true true
+                                                                              false false)
+                                                                           (String.String
+                                                                              (Ascii.Ascii false false true true false
+                                                                                 true false false)
+                                                                              (String.String
+                                                                                 (Ascii.Ascii false false false false
+                                                                                    false true false false)
+                                                                                 (String.String
+                                                                                    (Ascii.Ascii false false false
+                                                                                       false true true false false)
+                                                                                    (String.String
+                                                                                       (Ascii.Ascii true false true
+                                                                                          true true false true false)
+                                                                                       String.EmptyString))))))))))))))))))))))))));
+         (String.String (Ascii.Ascii true true true false false true true false)
+            (String.String (Ascii.Ascii false true false false true true true false)
+               (String.String (Ascii.Ascii true false false true false true true false)
+                  (String.String (Ascii.Ascii false false true false false true true false)
+                     (String.String (Ascii.Ascii true true false false true true true false)
+                        (String.String (Ascii.Ascii true false false true false true true false)
+                           (String.String (Ascii.Ascii false true false true true true true false)
+                              (String.String (Ascii.Ascii true false true false false true true false)
+                                 String.EmptyString))))))),
+          String.String (Ascii.Ascii true true false false true true true false)
+            (String.String (Ascii.Ascii true false true false false true true false)
+               (String.String (Ascii.Ascii false false true true false true true false)
+                  (String.String (Ascii.Ascii false true true false false true true false)
+                     (String.String (Ascii.Ascii false true true true false true false false)
+                        (String.String (Ascii.Ascii true true true true true false true false)
+                           (String.String (Ascii.Ascii true true true false false true true false)
+                              (String.String (Ascii.Ascii false true false false true true true false)
+                                 (String.String (Ascii.Ascii true false false true false true true false)
+                                    (String.String (Ascii.Ascii false false true false false true true false)
+                                       (String.String (Ascii.Ascii true true false false true true true false)
+                                          (String.String (Ascii.Ascii true false false true false true true false)
+                                             (String.String (Ascii.Ascii false true false true true true true false)
+                                                (String.String
+                                                   (Ascii.Ascii true false true false false true true false)
+                                                   String.EmptyString))))))))))))));
+         (String.String (Ascii.Ascii true true true true false true true false)
+            (String.String (Ascii.Ascii false true false false true true true false)
+               (String.String (Ascii.Ascii true false false true false true true false)
+                  (String.String (Ascii.Ascii true true true false false true true false)
+                     (String.String (Ascii.Ascii true false false true false true true false)
+                        (String.String (Ascii.Ascii false true true true false true true false) String.EmptyString))))),
+          String.String (Ascii.Ascii true true false false true true true false)
+            (String.String (Ascii.Ascii true false true false false true true false)
+               (String.String (Ascii.Ascii false false true true false true true false)
+                  (String.String (Ascii.Ascii false true true false false true true false)
+                     (String.String (Ascii.Ascii false true true true false true false false)
+                        (String.String (Ascii.Ascii true true true true true false true false)
+                           (String.String (Ascii.Ascii true true true true false true true false)
+                              (String.String (Ascii.Ascii false true false false true true true false)
+                                 (String.String (Ascii.Ascii true false false true false true true false)
+                                    (String.String (Ascii.Ascii true true true false false true true false)
+                                       (String.String (Ascii.Ascii true false false true false true true false)
+                                          (String.String (Ascii.Ascii false true true true false true true false)
+                                             String.EmptyString))))))))))))];
+        [(String.String (Ascii.Ascii true true true false false true true false)
+            (String.String (Ascii.Ascii false true false false true true true false)
+               (String.String (Ascii.Ascii true false false true false true true false)
+                  (String.String (Ascii.Ascii false false true false false true true false) String.EmptyString))),
+          String.String (Ascii.Ascii true true false false true true true false)
+            (String.String (Ascii.Ascii true false true false false true true false)
+               (String.String (Ascii.Ascii false false true true false true true false)
+                  (String.String (Ascii.Ascii false true true false false true true false)
+                     (String.String (Ascii.Ascii false true true true false true false false)
+                        (String.String (Ascii.Ascii true true true true true false true false)
+                           (String.String (Ascii.Ascii true true true false false true true false)
+                              (String.String (Ascii.Ascii false true false false true true true false)
+                                 (String.String (Ascii.Ascii true false false false false true true false)
+                                    (String.String (Ascii.Ascii false false true false false true true false)
+                                       (String.String (Ascii.Ascii true false false true false true true false)
+                                          (String.String (Ascii.Ascii true false true false false true true false)
+                                             (String.String (Ascii.Ascii false true true true false true true false)
+                                                (String.String
+                                                   (Ascii.Ascii false false true false true true true false)
+                                                   (String.String
+                                                      (Ascii.Ascii true true false true true false true false)
+                                                      (String.String
+                                                         (Ascii.Ascii false true false true true true false false)
+                                                         (String.String
+                                                            (Ascii.Ascii false false true true false true false false)
+                                                            (String.String
+                                                               (Ascii.Ascii false false false false false true false
+                                                                  false)
+                                                               (String.String
+                                                                  (Ascii.Ascii false true false true true true false
+                                                                     false)
+                                                                  (String.String
+                                                                     (Ascii.Ascii false false true true false true
+                                                                        false false)
+                                                                     (String.String
+                                                                        (Ascii.Ascii false false false false false true
+                                                                           false false)
+                                                                        (String.String
+                                                                           (Ascii.Ascii false true false true true true
+                                                                              false false)
+                                                                           (String.String
+                                                                              (Ascii.Ascii false false true true false
+                                                                                 true false false)
+                                                                              (String.String
+                                                                                 (Ascii.Ascii false false false false
+                                                                                    false true false false)
+                                                                                 (String.String
+                                                                                    (Ascii.Ascii true false false false
+                                                                                       true true false false)
+                                                                                    (String.String
+                                                                                       (Ascii.Ascii true false true
+                                                                                          true true false true false)
+                                                                                       String.EmptyString))))))))))))))))))))))))));
+         (String.String (Ascii.Ascii true true true false false true true false)
+            (String.String (Ascii.Ascii false true false false true true true false)
+               (String.String (Ascii.Ascii true false false true false true true false)
+                  (String.String (Ascii.Ascii false false true false false true true false)
+                     (String.String (Ascii.Ascii true true false false true true true false)
+                        (String.String (Ascii.Ascii true false false true false true true false)
+                           (String.String (Ascii.Ascii false true false true true true true false)
+                              (String.String (Ascii.Ascii true false true false false true true false)
+                                 String.EmptyString))))))),
+          String.String (Ascii.Ascii true true false false true true true false)
+            (String.String (Ascii.Ascii true false true false false true true false)
+               (String.String (Ascii.Ascii false false true true false true true false)
+                  (String.String (Ascii.Ascii false true true false false true true false)
+                     (String.String (Ascii.Ascii false true true true false true false false)
+                        (String.String (Ascii.Ascii true true true true true false true false)
+                           (String.String (Ascii.Ascii true true true false false true true false)
+                              (String.String (Ascii.Ascii false true false false true true true false)
+                                 (String.String (Ascii.Ascii true false false true false true true false)
+                                    (String.String (Ascii.Ascii false false true false false true true false)
+                                       (String.String (Ascii.Ascii true true false false true true true false)
+                                          (String.String (Ascii.Ascii true false false true false true true false)
+                                             (String.String (Ascii.Ascii false true false true true true true false)
+                                                (String.String
+                                                   (Ascii.Ascii true false true false false true true false)
+                                                   String.EmptyString))))))))))))));
+         (String.String (Ascii.Ascii true true true true false true true false)
+            (String.String (Ascii.Ascii false true false false true true true false)
+               (String.String (Ascii.Ascii true false false true false true true false)
+                  (String.String (Ascii.Ascii true true true false false true true false)
+                     (String.String (Ascii.Ascii true false false true false true true false)
+                        (String.String (Ascii.Ascii false true true true false true true false) String.EmptyString))))),
+          String.String (Ascii.Ascii true true false false true true true false)
+            (String.String (Ascii.Ascii true false true false false true true false)
+               (String.String (Ascii.Ascii false false true true false true true false)
+                  (String.String (Ascii.Ascii false true true false false true true false)
+                     (String.String (Ascii.Ascii false true true true false true false false)
+                        (String.String (Ascii.Ascii true true true true true false true false)
+                           (String.String (Ascii.Ascii true true true true false true true false)
+                              (String.String (Ascii.Ascii false true false false true true true false)
+                                 (String.String (Ascii.Ascii true false false true false true true false)
+                                    (String.String (Ascii.Ascii true true true false false true true false)
+                                       (String.String (Ascii.Ascii true false false true false true true false)
+                                          (String.String (Ascii.Ascii false true true true false true true false)
+                                             String.EmptyString))))))))))))];
+        [(String.String (Ascii.Ascii true true true false false true true false)
+            (String.String (Ascii.Ascii false true false false true true true false)
+               (String.String (Ascii.Ascii true false false true false true true false)
+                  (String.String (Ascii.Ascii false false true false false true true false) String.EmptyString))),
+          String.String (Ascii.Ascii true true false false true true true false)
+            (String.String (Ascii.Ascii true false true false false true true false)
+               (String.String (Ascii.Ascii false false true true false true true false)
+                  (String.String (Ascii.Ascii false true true false false true true false)
+                     (String.String (Ascii.Ascii false true true true false true false false)
+                        (String.String (Ascii.Ascii true true true true true false true false)
+                           (String.String (Ascii.Ascii true true true false false true true false)
+                              (String.String (Ascii.Ascii false true false false true true true false)
+                                 (String.String (Ascii.Ascii true false false false false true true false)
+                                    (String.String (Ascii.Ascii false false true false false true true false)
+                                       (String.String (Ascii.Ascii true false false true false true true false)
+                                          (String.String (Ascii.Ascii true false true false false true true false)
+                                             (String.String (Ascii.Ascii false true true true false true true false)
+                                                (String.String
+                                                   (Ascii.Ascii false false true false true true true false)
+                                                   (String.String
+                                                      (Ascii.Ascii true true false true true false true false)
+                                                      (String.String
+                                                         (Ascii.Ascii false true false true true true false false)
+                                                         (String.String
+                                                            (Ascii.Ascii false false true true false true false false)
+                                                            (String.String
+                                                               (Ascii.Ascii false false false false false true false
+                                                                  false)
+                                                               (String.String
+                                                                  (Ascii.Ascii false true false true true true false
+                                                                     false)
+                                                                  (String.String
+                                                                     (Ascii.Ascii false false true true false true
+                                                                        false false)
+                                                                     (String.String
+                                                                        (Ascii.Ascii false false false false false true
+                                                                           false false)
+                                                                        (String.String
+                                                                           (Ascii.Ascii false true false true true true
+                                                                              false false)
+                                                                           (String.String
+                                                                              (Ascii.Ascii false false true true false
+                                                                                 true false false)
+                                                                              (String.String
+                                                                                 (Ascii.Ascii false false false false
+                                                                                    false true false false)
+                                                                                 (String.String
+                                                                                    (Ascii.Ascii false true false false
+                                                                                       true true false false)
+                                                                                    (String.String
+                                                                                       (Ascii.Ascii true false true
+                                                                                          true true false true false)
+                                                                                       String.EmptyString))))))))))))))))))))))))));
+         (String.String (Ascii.Ascii true true true false false true true false)
+            (String.String (Ascii.Ascii false true false false true true true false)
+               (String.String (Ascii.Ascii true false false true false true true false)
+                  (String.String (Ascii.Ascii false false true false false true true false)
+                     (String.String (Ascii.Ascii true true false false true true true false)
+                        (String.String (Ascii.Ascii true false false true false true true false)
+                           (String.String (Ascii.Ascii false true false true true true true false)
+                              (String.String (Ascii.Ascii true false true false false true true false)
+                                 String.EmptyString))))))),
+          String.String (Ascii.Ascii true true false false true true true false)
+            (String.String (Ascii.Ascii true false true false false true true false)
+               (String.String (Ascii.Ascii false false true true false true true false)
+                  (String.String (Ascii.Ascii false true true false false true true false)
+                     (String.String (Ascii.Ascii false true true true false true false false)
+                        (String.String (Ascii.Ascii true true true true true false true false)
+                           (String.String (Ascii.Ascii true true true false false true true false)
+                              (String.String (Ascii.Ascii false true false false true true true false)
+                                 (String.String (Ascii.Ascii true false false true false true true false)
+                                    (String.String (Ascii.Ascii false false true false false true true false)
+                                       (String.String (Ascii.Ascii true true false false true true true false)
+                                          (String.String (Ascii.Ascii true false false true false true true false)
+                                             (String.String (Ascii.Ascii false true false true true true true false)
+                                                (String.String
+                                                   (Ascii.Ascii true false true false false true true false)
+                                                   String.EmptyString))))))))))))));
+         (String.String (Ascii.Ascii true true true true false true true false)
+            (String.String (Ascii.Ascii false true false false true true true false)
+               (String.String (Ascii.Ascii true false false true false true true false)
+                  (String.String (Ascii.Ascii true true true false false true true false)
+                     (String.String (Ascii.Ascii true false false true false true true false)
+                        (String.String (Ascii.Ascii false true true true false true true false) String.EmptyString))))),
+          String.String (Ascii.Ascii true true false false true true true false)
+            (String.String (Ascii.Ascii true false true false false true true false)
+               (String.String (Ascii.Ascii false false true true false true true false)
+                  (String.String (Ascii.Ascii false true true false false true true false)
+                     (String.String (Ascii.Ascii false true true true false true false false)
+                        (String.String (Ascii.Ascii true true true true true false true false)
+                           (String.String (Ascii.Ascii true true true true false true true false)
+                              (String.String (Ascii.Ascii false true false false true true true false)
+                                 (String.String (Ascii.Ascii true false false true false true true false)
+                                    (String.String (Ascii.Ascii true true true false false true true false)
+                                       (String.String (Ascii.Ascii true false false true false true true false)
+                                          (String.String (Ascii.Ascii false true true true false true true false)
+                                             String.EmptyString))))))))))))]] /\
+       ApiGen.grid_3d_init =
+       (String.String (Ascii.Ascii false false false true false true false false)
+          (String.String (Ascii.Ascii true true false false true true true false)
+             (String.String (Ascii.Ascii true false true false false true true false)
+                (String.String (Ascii.Ascii false false true true false true true false)
+                   (String.String (Ascii.Ascii false true true false false true true false)
+                      (String.String (Ascii.Ascii false false true true false true false false)
+                         (String.String (Ascii.Ascii false false false false false true false false)
+                            (String.String (Ascii.Ascii false true false true false true false false)
+                               (String.String (Ascii.Ascii true false false false false true true false)
+                                  (String.String (Ascii.Ascii false true false false true true true false)
+                                     (String.String (Ascii.Ascii true true true false false true true false)
+                                        (String.String (Ascii.Ascii true true false false true true true false)
+                                           (String.String (Ascii.Ascii false false true true false true false false)
+                                              (String.String
+                                                 (Ascii.Ascii false false false false false true false false)
+                                                 (String.String
+                                                    (Ascii.Ascii false true false true false true false false)
+                                                    (String.String
+                                                       (Ascii.Ascii false true false true false true false false)
+                                                       (String.String
+                                                          (Ascii.Ascii true true false true false true true false)
+                                                          (String.String
+                                                             (Ascii.Ascii true true true false true true true false)
+                                                             (String.String
+                                                                (Ascii.Ascii true false false false false true true
+                                                                   false)
+                                                                (String.String
+                                                                   (Ascii.Ascii false true false false true true true
+                                                                      false)
+                                                                   (String.String
+                                                                      (Ascii.Ascii true true true false false true true
+                                                                         false)
+                                                                      (String.String
+                                                                         (Ascii.Ascii true true false false true true
+                                                                            true false)
+                                                                         (String.String
+                                                                            (Ascii.Ascii true false false true false
+                                                                               true false false) String.EmptyString)))))))))))))))))))))),
+        String.String (Ascii.Ascii true true false false true true true false)
+          (String.String (Ascii.Ascii true false true false true true true false)
+             (String.String (Ascii.Ascii false false false false true true true false)
+                (String.String (Ascii.Ascii true false true false false true true false)
+                   (String.String (Ascii.Ascii false true false false true true true false)
+                      (String.String (Ascii.Ascii false false false true false true false false)
+                         (String.String (Ascii.Ascii true false false true false true false false)
+                            (String.String (Ascii.Ascii false true true true false true false false)
+                               (String.String (Ascii.Ascii true true true true true false true false)
+                                  (String.String (Ascii.Ascii true true true true true false true false)
+                                     (String.String (Ascii.Ascii true false false true false true true false)
+                                        (String.String (Ascii.Ascii false true true true false true true false)
+                                           (String.String (Ascii.Ascii true false false true false true true false)
+                                              (String.String (Ascii.Ascii false false true false true true true false)
+                                                 (String.String (Ascii.Ascii true true true true true false true false)
+                                                    (String.String
+                                                       (Ascii.Ascii true true true true true false true false)
+                                                       (String.String
+                                                          (Ascii.Ascii false false false true false true false false)
+                                                          (String.String
+                                                             (Ascii.Ascii false true false true false true false false)
+                                                             (String.String
+                                                                (Ascii.Ascii true false false false false true true
+                                                                   false)
+                                                                (String.String
+                                                                   (Ascii.Ascii false true false false true true true
+                                                                      false)
+                                                                   (String.String
+                                                                      (Ascii.Ascii true true true false false true true
+                                                                         false)
+                                                                      (String.String
+                                                                         (Ascii.Ascii true true false false true true
+                                                                            true false)
+                                                                         (String.String
+                                                                            (Ascii.Ascii false false true true false
+                                                                               true false false)
+                                                                            (String.String
+                                                                               (Ascii.Ascii false false false false
+                                                                                  false true false false)
+                                                                               (String.String
+                                                                                  (Ascii.Ascii false true false true
+                                                                                     false true false false)
+                                                                                  (String.String
+                                                                                     (Ascii.Ascii false true false true
+                                                                                        false true false false)
+                                                                                     (String.String
+                                                                                        (Ascii.Ascii true true false
+                                                                                          true false true true false)
+                                                                                        (String.String
+                                                                                          (Ascii.Ascii true true true
+                                                                                          false true true true false)
+                                                                                          (String.String
+                                                                                          (Ascii.Ascii true false false
+                                                                                          false false true true false)
+                                                                                          (String.String
+                                                                                          (Ascii.Ascii false true false
+                                                                                          false true true true false)
+                                                                                          (String.String
+                                                                                          (Ascii.Ascii true true true
+                                                                                          false false true true false)
+                                                                                          (String.String
+                                                                                          (Ascii.Ascii true true false
+                                                                                          false true true true false)
+                                                                                          (String.String
+                                                                                          (Ascii.Ascii true false false
+                                                                                          true false true false false)
+                                                                                          String.EmptyString))))))))))))))))))))))))))))))))).
+Proof. exact @ApiGenEq.gen_gradient_3d. Qed.
+
 Print Assumptions C13_single_solve2d_raises_iff_outside.
 Print Assumptions C13_single_solve3d_raises_iff_outside.
 Print Assumptions C13_list_solve2d_spec.
@@ -233,3 +1032,5 @@ Print Assumptions C13_ray_budget_raises_iff_insufficient_2d.
 Print Assumptions C13_ray_budget_raises_iff_insufficient_3d.
 Print Assumptions C13_ray_outside_hull_independent_of_budget_2d.
 Print Assumptions C13_ray_outside_hull_independent_of_budget_3d.
+Print Assumptions C13_gradient_access_without_gradient_raises_ValueError.
+Print Assumptions C13_gradient_access_without_gradient_raises_ValueError_3d.
